@@ -103,7 +103,7 @@ def rule_r2(repo):
         for n in ast.walk(fi.node):
             if isinstance(n, ast.Attribute) and norm(n.value) == 'self.bit_stream':
                 rr.instance('%s uses self.bit_stream.%s' % (fi.qualname, n.attr))
-                if n.attr == 'pos':
+                if n.attr == 'pos' and isinstance(n.ctx, ast.Load):
                     continue
                 if n.attr == 'read' and fi is wrapper:
                     continue
@@ -279,5 +279,12 @@ def run(repo, check):
     check.run_rule(rule_r2, repo)
     check.run_rule(rule_r3, repo)
     check.run_rule(rule_r4, repo)
+    from sa.rules import c11
+    r5 = c11.rule_r1(repo)
+    r5.rule = 'C12.R5'
+    r5.title = 'skip-and-continue: the scanner folded over a scripted stream with damaged messages (shared with C11.R1)'
+    for f in r5.findings:
+        f.rule = 'C12.R5'
+    check.add(r5)
     check.assumptions = ['implicit exceptions (IndexError, KeyError, ...) are outside the claim; only explicit raise/assert sites are decided',
                          'bitstring raises a subclass of bitstring.Error on a read past the end']
